@@ -64,11 +64,19 @@ func constsOf(t *Term) []int {
 }
 
 // relevant selects the assumptions connected to the goal through shared constants.
+// hubConst: allocation counters occur in almost every type-invariant assumption; they do not
+// make two assumptions relevant to each other.
+var hubCache = map[int]bool{}
+
+func hubConst(id int) bool { return hubCache[id] && os.Getenv("GOVC_HUB") != "" } // experimental, off: dropped facts a proof needed
+
 func relevant(assumps []*Term, roots []*Term) []*Term {
 	inSet := map[int]bool{}
 	for _, r := range roots {
 		for _, c := range constsOf(r) {
-			inSet[c] = true
+			if !hubConst(c) {
+				inSet[c] = true
+			}
 		}
 	}
 	type item struct {
@@ -86,18 +94,27 @@ func relevant(assumps []*Term, roots []*Term) []*Term {
 			if it.taken {
 				continue
 			}
-			hit := len(it.consts) == 0
+			nonHub := 0
+			hit := false
 			for _, c := range it.consts {
+				if hubConst(c) {
+					continue
+				}
+				nonHub++
 				if inSet[c] {
 					hit = true
-					break
 				}
+			}
+			if nonHub == 0 {
+				hit = true // pure axioms and facts about the allocation counters only
 			}
 			if hit {
 				it.taken = true
 				changed = true
 				for _, c := range it.consts {
-					inSet[c] = true
+					if !hubConst(c) {
+						inSet[c] = true
+					}
 				}
 			}
 		}
